@@ -71,7 +71,7 @@ Proof. exact wf_run_in_code_lemma. Qed.
 Print Assumptions wf_run_in_code.
 
 (* 4. Registers: every register a reachable step touches is below NumUsedRegisters, which holds the
-      parameters and is at most maxRegisters = 200 <= 255 (no exception for OP_TFORLOOP: its three
+      parameters and is at most maxRegisters = 250 <= 255 (no exception for OP_TFORLOOP: its three
       call temporaries are counted). *)
 Theorem wf_regs_bounded : forall f pc i,
   wf_fn f = true -> reach f 0 pc -> sk_step f pc = Some i ->
